@@ -54,6 +54,23 @@ PrecOf(n) ==
       [] d.kind = "CSE"   -> {d.rng}
       [] d.kind = "Alias" -> {d.rng}
 
+\* needed_addresses in the order the code yields them
+RECURSIVE FlatSeq(_)
+FlatSeq(rows) == IF rows = <<>> THEN <<>> ELSE Head(rows) \o FlatSeq(Tail(rows))
+Uniq(seq) ==
+  LET RECURSIVE U(_, _)
+      U(acc, rest) == IF rest = <<>> THEN acc
+                      ELSE U(IF \E i \in 1..Len(acc) : acc[i] = Head(rest) THEN acc
+                             ELSE Append(acc, Head(rest)), Tail(rest))
+  IN  U(<<>>, seq)
+NeededSeq(n) ==
+  IF n \in Inputs THEN <<>>
+  ELSE LET d == Def[n] IN
+    CASE d.kind = "Plus"  -> Uniq(d.refs)
+      [] d.kind = "Range" -> FlatSeq(d.rows)
+      [] d.kind = "Cat"   -> <<d.ref>>
+      [] OTHER            -> <<d.rng>>
+
 \* constant-level tables (TLC evaluates them once)
 PrecMap == [n \in Nodes |-> PrecOf(n)]
 Prec(n) == PrecMap[n]
@@ -63,15 +80,15 @@ AncRec(n) == {n} \cup UNION {AncRec(p) : p \in PrecMap[n]}
 AncMap == [n \in Nodes |-> AncRec(n)]
 AncOf(n) == AncMap[n]
 
-RECURSIVE RankRec(_)
-RankRec(n) == IF PrecMap[n] = {} THEN 0
-              ELSE 1 + CHOOSE m \in 0..Cardinality(Nodes) :
-                         /\ \E p \in PrecMap[n] : RankRec(p) = m
-                         /\ \A p \in PrecMap[n] : RankRec(p) <= m
-RankMap == [n \in Nodes |-> RankRec(n)]
-MaxRank == CHOOSE m \in 0..Cardinality(Nodes) :
-             /\ \E n \in Nodes : RankMap[n] = m
-             /\ \A n \in Nodes : RankMap[n] <= m
+\* rank = length of the longest precedent chain below a node (inputs: 0)
+SetMax(S) == CHOOSE x \in S : \A y \in S : y <= x
+RECURSIVE RankIter(_, _)
+RankIter(r, k) ==
+  IF k = 0 THEN r
+  ELSE RankIter([n \in Nodes |-> IF PrecMap[n] = {} THEN 0
+                                  ELSE 1 + SetMax({r[p] : p \in PrecMap[n]})], k - 1)
+RankMap == RankIter([n \in Nodes |-> 0], Cardinality(Nodes))
+MaxRank == SetMax({RankMap[n] : n \in Nodes})
 
 (* value of node n given the values pv of its direct precedents *)
 RECURSIVE PlusFold(_, _, _)
